@@ -20,10 +20,40 @@ pub enum Prior {
     LargerUfo,
     PlainFile,
     NestedJunk,
+    /// non-empty directory without metainfo.plist, names the font never writes
+    JunkNoMeta,
+    /// non-empty directory without metainfo.plist holding files named like optional parts
+    StaleOptional,
+    /// no metainfo.plist; stale files inside what will be the default layer directory and images/
+    StaleInLayer,
+    /// a directory that contains only a sub-directory
+    OnlySubdir,
+    /// a complete UFO whose metainfo.plist was deleted
+    FormerUfo,
+    /// the target is a symbolic link to a directory elsewhere (remove_dir_all unlinks it)
+    SymlinkDir,
+    /// ... to a directory that holds a UFO
+    SymlinkUfo,
     NoParent,
 }
-pub const PRIORS: [Prior; 6] =
-    [Prior::Absent, Prior::EmptyDir, Prior::OtherUfo, Prior::LargerUfo, Prior::PlainFile, Prior::NestedJunk];
+pub const PRIORS: [Prior; 13] = [
+    Prior::Absent,
+    Prior::EmptyDir,
+    Prior::OtherUfo,
+    Prior::LargerUfo,
+    Prior::PlainFile,
+    Prior::NestedJunk,
+    Prior::JunkNoMeta,
+    Prior::StaleOptional,
+    Prior::StaleInLayer,
+    Prior::OnlySubdir,
+    Prior::FormerUfo,
+    Prior::SymlinkDir,
+    Prior::SymlinkUfo,
+];
+pub fn prior_for(idx: u64) -> Prior {
+    PRIORS[(idx % PRIORS.len() as u64) as usize]
+}
 
 pub fn make_prior(target: &Path, p: Prior, r: &mut Rng) {
     match p {
@@ -54,6 +84,55 @@ pub fn make_prior(target: &Path, p: Prior, r: &mut Rng) {
             build_font(&rc).0.save(target).unwrap();
         }
         Prior::PlainFile => std::fs::write(target, b"i am a file").unwrap(),
+        Prior::JunkNoMeta => {
+            std::fs::create_dir_all(target.join("sub/dir")).unwrap();
+            std::fs::write(target.join("notes.txt"), b"notes").unwrap();
+            std::fs::write(target.join("sub/dir/file"), b"deep").unwrap();
+        }
+        Prior::StaleOptional => {
+            std::fs::create_dir_all(target.join("data/com.example")).unwrap();
+            std::fs::create_dir_all(target.join("glyphs.old")).unwrap();
+            for f in ["kerning.plist", "groups.plist", "features.fea", "lib.plist", "fontinfo.plist"] {
+                std::fs::write(target.join(f), b"stale").unwrap();
+            }
+            std::fs::write(target.join("data/com.example/old.bin"), b"old").unwrap();
+            std::fs::write(target.join("data/x"), b"x").unwrap();
+            std::fs::write(target.join("glyphs.old/contents.plist"), b"stale").unwrap();
+            std::fs::write(target.join("notes.txt"), b"notes").unwrap();
+        }
+        Prior::StaleInLayer => {
+            std::fs::create_dir_all(target.join("glyphs")).unwrap();
+            std::fs::create_dir_all(target.join("images")).unwrap();
+            std::fs::write(target.join("glyphs/layerinfo.plist"), b"stale").unwrap();
+            std::fs::write(target.join("glyphs/old_.glif"), b"stale").unwrap();
+            std::fs::write(target.join("images/y.png"), PNG).unwrap();
+        }
+        Prior::OnlySubdir => std::fs::create_dir_all(target.join("only/sub")).unwrap(),
+        Prior::FormerUfo => {
+            let mut rc = Recipe::random_valid(r);
+            rc.kerning = 1;
+            rc.groups = 1;
+            rc.features = 1;
+            rc.lib = true;
+            rc.info = true;
+            rc.data = vec![("com.example/old.bin".into(), b"old".to_vec())];
+            build_font(&rc).0.save(target).unwrap();
+            std::fs::remove_file(target.join("metainfo.plist")).unwrap();
+        }
+        Prior::SymlinkDir | Prior::SymlinkUfo => {
+            // zone/linked is outside the target; the link must go, the directory must stay
+            let dest = target.parent().unwrap().join("linked");
+            if p == Prior::SymlinkUfo {
+                let mut rc = Recipe::plain();
+                rc.kerning = 1;
+                build_font(&rc).0.save(&dest).unwrap();
+            } else {
+                std::fs::create_dir_all(dest.join("keep")).unwrap();
+                std::fs::write(dest.join("kerning.plist"), b"not yours").unwrap();
+                std::fs::write(dest.join("keep/me.txt"), b"keep").unwrap();
+            }
+            std::os::unix::fs::symlink("linked", target).unwrap();
+        }
         Prior::NestedJunk => {
             std::fs::create_dir_all(target.join("a/b/c")).unwrap();
             std::fs::create_dir_all(target.join("glyphs")).unwrap();
@@ -347,7 +426,7 @@ pub fn case(seed: u64, idx: u64, out: &Path, verbose: bool) -> CaseOut {
             // mostly a single kind, sometimes several (the first in source order must win)
             let mask = if r.chance(3, 4) { 1 << r.below(4) } else { 1 + r.below(15) as u32 };
             inject(&mut p, mask, &mut r);
-            prior = PRIORS[(idx % 6) as usize];
+            prior = prior_for(idx);
             in_place = p.loaded_from.is_some() && r.chance(1, 4);
         }
         1 => {
@@ -399,7 +478,7 @@ pub fn case(seed: u64, idx: u64, out: &Path, verbose: bool) -> CaseOut {
                 }
             }
             in_place = r.chance(1, 2);
-            prior = PRIORS[(idx % 6) as usize];
+            prior = prior_for(idx);
         }
         2 => {
             p = prepare_loaded(&sb, &mut r, false);
@@ -420,7 +499,7 @@ pub fn case(seed: u64, idx: u64, out: &Path, verbose: bool) -> CaseOut {
                 let (font, shadow) = build_font(&rc);
                 p = Prepared { font, shadow, groups_ok: true, info_valid: true, loaded_from: None, preserve: BTreeSet::new(), notes: vec![] };
             }
-            prior = if r.chance(1, 10) { Prior::NoParent } else { PRIORS[(idx % 6) as usize] };
+            prior = if r.chance(1, 10) { Prior::NoParent } else { prior_for(idx) };
         }
     }
     let target_rel: Vec<String> = if in_place {
